@@ -13,33 +13,82 @@ P = {'id': 'C07',
               'bump_alloc_aligned',
               'bump_refuses_over_capacity',
               'bump_align_refuted',
-              'fixedcap_live_disjoint_within'],
+              'fixedcap_live_disjoint_within',
+              'five_level_inv',
+              'five_level_refuses_over_capacity',
+              'five_level_refusal_exact',
+              'five_level_class_roundtrip',
+              'five_level_free_reuse',
+              'five_level_reissue_fits',
+              'five_level_used_exact',
+              'five_level_frag_covers',
+              'five_link_write_safe',
+              'five_offset_wrap_refuted',
+              'five_small_align_refuted',
+              'five_tl_offset_alias_refuted',
+              'threadlocal_inv',
+              'threadlocal_refuses_over_capacity',
+              'threadlocal_reissue_fits',
+              'threadlocal_free_reuse',
+              'threadlocal_arenas_retained',
+              'tiered_same_class_on_free',
+              'tiered_route_fits',
+              'tiered_inv',
+              'secure_no_chunk_lost',
+              'secure_free_accepted',
+              'secure_active_exact',
+              'secure_double_free_detected',
+              'mempool_inv',
+              'mmap_inv',
+              'mmap_reissue_fits'],
  'trusted': ['modelled (M+S): src/memory/lockfree_pool.rs (allocate, deallocate, allocate_from_fast_bin, deallocate_to_fast_bin, allocate_new_block, '
              'size_to_bin_index, align_size, ptr_to_offset; FAST_BIN_SIZES is read from the source by the harness and compared with the model table in every '
              'Coq-evaluated case), sequential semantics, free lists as stacks of offsets; src/memory/bump.rs (alloc_bytes, BumpScope drop) with the buffer '
              'base address as a parameter. Both in two variants: the pinned code (refutation theorems) and the code after the fix: commits (positive theorems)',
              'modelled (M+S): src/memory/fixed_capacity_pool.rs (generate_size_classes, find_size_class, allocate_from_free_list, allocate_by_splitting, '
              'deallocate_to_free_list, initial free list) with free lists as stacks of block offsets',
-             'spec-only cells (direct oracle with shadow map of live ranges and per-block patterns, no mechanism model): '
-             'ThreadLocalMemoryPool, SecureMemoryPool, MemoryPool/PooledBuffer/PooledVec, TieredMemoryAllocator, MemoryMappedAllocator, numa_alloc_aligned, '
-             'HugePageAllocator, five-level family (NoLocking/Mutex/LockFree/ThreadLocal/FixedCapacity/Adaptive: offsets only - the memory behind a MemOffset '
-             'is not reachable through the public API, so contents are not checked there)',
-             'not modelled: CAS retry loops and backoff (concurrency is C08), statistics, cache/NUMA/huge-page hints of the pool configs'],
+             'modelled (M+S): src/memory/five_level_pool.rs as one parametric model for NoLockingPool / MutexBasedPool / LockFreePool (sequential) / '
+             'FixedCapacityPool, also behind AdaptiveFiveLevelPool (align_up as written with the bit mask, bin index and its inverse, alloc_from_fast_bin, '
+             'alloc_from_end, free with the end-of-memory merge, free_to_fast_bin, the large-block path, used_memory / fragment_size accounting, the '
+             'FixedCapacityPool capacity check and remaining_capacity, the constructors); the vector of intrusive free-list stacks is one list of (bin, offset) '
+             'pairs, newest first; level 4 (ThreadLocalPool) modelled as it is for the refutation theorem',
+             'modelled (M+S): src/memory/threadlocal_pool.rs (ThreadLocalCache allocate / deallocate / allocate_new_area_or_fallback / size_to_list_index, '
+             'HotArea new / try_allocate; TLS_SIZE_CLASSES read from the source and compared in every case); src/memory/tiered.rs (the allocate routing chain, '
+             'allocate_medium and deallocate_medium as two separate searches, allocate_large / allocate_huge) over src/memory/pool.rs (MemoryPool as a bounded '
+             'FIFO queue), MemoryPool also on its own; src/memory/secure_pool.rs chunk bookkeeping (allocate_with_hint, deallocate_internal, LocalCache, the '
+             'shared stack sequentially, generations, active_allocations); src/memory/mmap.rs (min size, page rounding, region cache keyed by the rounded size)',
+             'spec-only cells (direct oracle with shadow map of live ranges and per-block patterns, no mechanism model): PooledBuffer / PooledVec, the global '
+             'tiered_allocate entry points, numa_alloc_aligned, HugePageAllocator; five-level family: offsets only - the memory behind a MemOffset is not '
+             'reachable through the public API, so contents are not checked there',
+             'hook (cfg zipora_verif only): SecureMemoryPool::verif_chunk_copy / verif_deallocate let the harness perform the double free the RAII guard makes '
+             'unreachable; existing read-only inspectors (local cache, shared stack, active table size, MemOffset value) are used to compare states',
+             'not modelled: CAS retry loops and backoff (concurrency is C08), statistics other than the ones compared, cache/NUMA/huge-page hints of the pool '
+             'configs, canary validation of SecureChunk (always succeeds for a client that stays inside its blocks), the success of mmap / the system allocator'],
  'assumptions': ['usize is 64 bits; sequential use of one pool from one thread',
-                 'the client frees only blocks it holds, once, with the size it allocated them with (the lock-free pool does not track what it issued)',
-                 'agreement of model and code is established on the generated histories only (offsets relative to the first allocation, results of every '
-                 'allocate/deallocate)'],
- 'level_text': 'Machine-checked Coq theorems about a hand-written model of LockFreeMemoryPool and BumpAllocator/BumpArena: for every arena size and every '
-               'history of allocate / free-of-a-live-block / free-of-a-foreign-pointer, live allocations are pairwise disjoint, at least as large as requested, '
-               '8-aligned, inside the arena; requests beyond the capacity and pointers outside the arena are refused leaving the pool unchanged; a freed '
-               'fast-bin block is reissued for the next request of its class; the free-list link written on free touches no other live block. Bump '
-               'allocator: for every base address, capacity and history with scopes, blocks are disjoint, inside the buffer and their addresses satisfy the '
-               'requested alignment. Refutation theorems for the pinned code (class recycling overlap, wrapping bump offset, offset-only alignment) with '
-               'witnesses that fail on the pinned tree. The models are tied to the code by replaying generated histories in Coq. All other pools are decided '
-               'by the shadow-map oracle only (S-only).',
- 'level_note': 'Trusted: Coq kernel + vm_compute; hand-written model (free lists abstracted to stacks, justified by free_link_write_safe); harness '
-               'generators and the shadow-map oracle; the source reader for FAST_BIN_SIZES.',
- 'technique': 'Coq proof by invariant over histories (byte-cover counting <= 1 for live blocks plus free-list blocks); refutation by vm_compute on witnesses; '
-              'model/implementation differential check on operation histories by vm_compute; shadow interval map + fill patterns oracle on every pool, run in a '
+                 'the client frees only blocks it holds, once, with the size it allocated them with (the lock-free and five-level pools do not track what '
+                 'they issued); the SecureMemoryPool double free is performed by the harness through the hook only while the chunk is not handed out again',
+                 'agreement of model and code is established on the generated histories only (offsets / arena-relative offsets / chunk identities by '
+                 'address, results of every allocate and free, pool statistics and inspector dumps after every operation)'],
+ 'level_text': 'Machine-checked Coq theorems (40, all closed under the global context) about hand-written models of the pools. LockFreeMemoryPool and '
+               'BumpAllocator/BumpArena: for every arena size / base address and every history, live allocations are pairwise disjoint, at least as large as '
+               'requested, aligned, inside the arena; requests beyond the capacity and foreign pointers are refused leaving the pool unchanged; the free-list '
+               'link written on free touches no other live block. FixedCapacityMemoryPool: distinct whole blocks inside the arena for every configuration and '
+               'history. Five-level family (NoLocking / Mutex / LockFree / FixedCapacity as one parametric model): the same invariant for every accepted '
+               'configuration and history, refusal exactly when the capacity is exceeded (the FixedCapacityPool check is redundant), size-class round trip '
+               '(what is carved for a class is what is filed under it on free), exact used_memory / remaining_capacity accounting, 4-byte link write safe. '
+               'ThreadLocalMemoryPool: live blocks in different arenas or disjoint, inside a retained arena, re-issued only for their own class. '
+               'TieredMemoryAllocator: for every size the pool chosen on free is the pool that served the allocation; over every history a live allocation '
+               'holds a large-enough chunk of the right pool and chunks are never duplicated; MemoryPool likewise. SecureMemoryPool: over every history every '
+               'chunk is in exactly one of local cache / shared stack / handed out, the active table mirrors the handed-out chunks, a second free is reported '
+               'and changes nothing. MemoryMappedAllocator: live regions distinct and large enough, cached regions re-issued only for their own rounded size. '
+               'Refutation theorems for the pinned code (lock-free class recycling and wrapping offset, bump offset-only alignment, five-level alignment 2 and '
+               'capacity above 4 GiB) and for the recorded finding (five-level ThreadLocalPool offset aliasing), with witnesses that fail on the corresponding '
+               'tree. All models are tied to the code by replaying generated histories in Coq. The remaining pools are decided by the shadow-map oracle only.',
+ 'level_note': 'Trusted: Coq kernel + vm_compute; the hand-written models (free lists abstracted to stacks / keyed lists with the per-key order of the code, '
+               'justified by free_link_write_safe and five_link_write_safe; chunk addresses abstracted to serial numbers); the harness (generators, shadow-map '
+               'oracle, address-to-identity maps, source reader for FAST_BIN_SIZES and TLS_SIZE_CLASSES); the cfg(zipora_verif) inspectors and hook.',
+ 'technique': 'Coq proof by invariant over histories (byte-cover counting <= 1 for live blocks plus free-list blocks; chunk identities as unit intervals; '
+              'occurrence counting = 1 for the secure pool); refutation by vm_compute on witnesses; model/implementation differential check on operation '
+              'histories by vm_compute, including full-state comparison through inspectors; shadow interval map + fill patterns oracle on every pool, run in a '
               'child process so that a crash yields the failing history',
- 'explanation': 'Unbounded theorems for the lock-free pool and the bump allocator; shadow-map oracle for all pools.'}
+ 'explanation': 'Unbounded theorems for the lock-free, bump, fixed-capacity, five-level, thread-local, tiered, basic, secure and mmap pools; shadow-map oracle for all pools.'}
